@@ -3,7 +3,7 @@
    case: <vm: n meth*> <5 x rel: n entry*> <svc: n svc*> <nq queries: did(-1) frag(-1)>* ops...
    ops: 0 meth scope | 1 url | 2 svc | 3 url | 4 did frag rel | 5 did frag rel      (scope 0 = vm, 1..5 = rel) *)
 From Coq Require Import List ZArith Bool.
-From IdV Require Import Lib.Wire Doc.Doc.
+From IdV Require Import Lib.Wire Doc.Doc Doc.UrlQuery.
 Import ListNotations.
 Open Scope Z_scope.
 
@@ -121,7 +121,28 @@ Fixpoint c04_ops (fuel : nat) (ops : list Z) (d : doc) (qs : list query) : list 
     end
   end.
 
+(* string-level queries (Doc/UrlQuery.v): -9 <LP query> n (<LP did> has_frag <LP frag>)..  -> index of the first matching id, -1 when none *)
+Definition c04_nl (l : list Z) : list N := map Z.to_N l.
+Fixpoint c04_take_ids (n : nat) (l : list Z) : option (list (list N * option (list N))) :=
+  match n with
+  | O => Some []
+  | S m => match take_lp l with
+           | Some (d, hf :: r1) => match take_lp r1 with
+                                   | Some (f, r2) => match c04_take_ids m r2 with
+                                                     | Some ids => Some ((c04_nl d, if hf =? 0 then None else Some (c04_nl f)) :: ids)
+                                                     | None => None end
+                                   | None => None end
+           | _ => None end
+  end.
+Definition c04_query_run (l : list Z) : list Z :=
+  match take_lp l with
+  | Some (q, n :: r) => match c04_take_ids (Z.to_nat n) r with
+                        | Some ids => [match q_first PFX_FIXED (c04_nl q) ids 0 with Some i => Z.of_nat i | None => -1 end]
+                        | None => ERR_DECODE end
+  | _ => ERR_DECODE end.
+
 Definition c04_run (input : list Z) : list Z :=
+  match input with -9 :: l => c04_query_run l | _ =>
   match c04_counted c04_take_meths input with
   | Some (vm, r0) =>
     match c04_counted c04_take_entries r0 with
@@ -144,4 +165,4 @@ Definition c04_run (input : list Z) : list Z :=
       | None => ERR_DECODE end
     | None => ERR_DECODE end | None => ERR_DECODE end | None => ERR_DECODE end | None => ERR_DECODE end | None => ERR_DECODE end
   | None => ERR_DECODE
-  end.
+  end end.
